@@ -38,7 +38,8 @@ pub fn start_watchdog(hang_path: String) {
             let ms = now_ms() - st;
             if let Some((base, mode, what, input)) = CUR.lock().ok().and_then(|g| g.clone()) {
                 let ev = json!({"e":"case","base":base,"mode":mode,"what":what,"n":input.len(),"status":"hang","site":"",
-                    "ops":0,"bytes":0,"budget_hit":false,"slow_ms":ms.min(SAT),"peak":0,"maxreq":0,"input":bytes_val(&input)});
+                    "ops":0,"bytes":0,"budget_hit":false,"slow_ms":ms.min(SAT),"peak":0,"maxreq":0,"input":bytes_val(&input),
+                    "digest":digest(&input).iter().map(|x| format!("{:02x}", x)).collect::<String>()});
                 let _ = std::fs::write(&hang_path, serde_json::to_vec(&ev).unwrap_or_default());
             }
             std::process::exit(97);
@@ -291,6 +292,9 @@ pub fn run_base(idx: u64, base: &Value, out: &mut Out) -> (u64, u64, [u64; 4]) {
     out.ev(json!({"e":"reset","id":format!("base-{}", idx),"kind":base["kind"],"len":bytes.len(),"mode":mode}));
     let mut blk = Block::new(out, idx, mode);
     let each = std::env::var("MP4V_EACH").is_ok();
+    // inputs that made an earlier worker die (digests, comma separated): reported by the driver as
+    // crash events, not executed again
+    let skip: Vec<String> = std::env::var("MP4V_SKIP").map(|s| s.split(',').map(|x| x.to_string()).collect()).unwrap_or_default();
     let run = |b: &[u8]| {
         if each {
             eprintln!("EACH {}", digest(b).iter().map(|x| format!("{:02x}", x)).collect::<String>());
@@ -313,6 +317,9 @@ pub fn run_base(idx: u64, base: &Value, out: &mut Out) -> (u64, u64, [u64; 4]) {
         o
     };
     let go = |blk: &mut Block, b: &[u8], what: Value| {
+        if !skip.is_empty() && skip.contains(&digest(b).iter().map(|x| format!("{:02x}", x)).collect::<String>()) {
+            return;
+        }
         if let Ok(mut g) = CUR.lock() {
             *g = Some((idx, mode, what.clone(), b.to_vec()));
         }
@@ -362,6 +369,35 @@ pub fn run_base(idx: u64, base: &Value, out: &mut Out) -> (u64, u64, [u64; 4]) {
                     continue;
                 }
                 go(&mut blk, &b, json!([[o, w, big(v)]]));
+            }
+        }
+    }
+    // (2b) inside every leaf box: the version/flags word (each single flag bit, none, all) together
+    //      with each other word of the same box set to a huge value -- a flag decides how a count
+    //      is checked against the box size
+    if plan["field_singles"].as_bool().unwrap_or(false) {
+        let roles: Vec<(usize, usize, u64, u64)> = base["fields"].as_array().map(|a| a.iter()
+            .map(|f| (f[0].as_u64().unwrap_or(0) as usize, f[1].as_u64().unwrap_or(4) as usize, f[2].as_u64().unwrap_or(9), f[3].as_u64().unwrap_or(0))).collect()).unwrap_or_default();
+        let mut flagvals: Vec<u64> = (0..24).map(|i| 1u64 << i).collect();
+        flagvals.extend_from_slice(&[0, 0x00FF_FFFF, 0x0100_0000, 0x0100_0800, 0x0100_0F01]);
+        for &(fo, fw, role, bx) in roles.iter() {
+            if role != 1 || fw != 4 || fo + 4 > len {
+                continue;
+            }
+            for &(oo, ow, orole, obx) in roles.iter() {
+                if obx != bx || orole != 2 || ow != 4 || oo + 4 > len {
+                    continue;
+                }
+                for &fv in flagvals.iter() {
+                    for &ov in [0xFFFF_FFFFu64, 0x7FFF_FFFF, 0x1000_0000, 0x0100_0000].iter() {
+                        let mut b = bytes.clone();
+                        // keep the version byte of the base unless the flag value sets one
+                        let keep = if fv >> 24 == 0 { (bytes[fo] as u64) << 24 } else { 0 };
+                        put(&mut b, fo, 4, fv | keep);
+                        put(&mut b, oo, 4, ov);
+                        go(&mut blk, &b, json!([[fo, 4, big(fv | keep)], [oo, 4, big(ov)]]));
+                    }
+                }
             }
         }
     }
